@@ -1,6 +1,6 @@
 SPECIFICATION Spec
 CONSTANTS
-  N = 10
+  N = 9
   Lens = {2}
   GenesisLen = 2
   Period = 1
